@@ -247,6 +247,8 @@ type stepTask struct {
 	Stream string `json:"stream,omitempty"`
 	Idx    int    `json:"idx,omitempty"`
 	Seed   int64  `json:"seed,omitempty"`
+	// HangTimes: multiple of the quadratic budget at which a still running call is given up (0 = 50)
+	HangTimes float64 `json:"hang_times,omitempty"`
 }
 
 type stepResult struct {
@@ -326,6 +328,10 @@ func quadBudget(n int) float64 {
 // hang when the running call has used more than 50x its quadratic budget (logical criterion; the clock only
 // decides when the counters are looked at).
 func (sc *stepCounter) measure(n int, prev int64, f func()) (steps int64, hang bool, wall time.Duration, err error) {
+	return sc.measureUpTo(n, prev, stepHangTimes, f)
+}
+
+func (sc *stepCounter) measureUpTo(n int, prev int64, hangTimes float64, f func()) (steps int64, hang bool, wall time.Duration, err error) {
 	if err = coverage.ClearCounters(); err != nil {
 		return
 	}
@@ -348,7 +354,7 @@ func (sc *stepCounter) measure(n int, prev int64, f func()) (steps int64, hang b
 			return
 		case <-tick.C:
 			s, e := sc.read()
-			if e == nil && float64(s) > stepHangTimes*quadBudget(n) {
+			if e == nil && float64(s) > hangTimes*quadBudget(n) {
 				return s, true, time.Since(t0), nil
 			}
 			// relative criterion for scaled families: the previous (half as large) member took `prev` steps; a
@@ -408,7 +414,11 @@ func stepsWorker() {
 			}
 		}
 		res.Len = n
-		steps, hang, wall, err := sc.measure(n, prevSteps[t.Family], call)
+		ht := stepHangTimes
+		if t.HangTimes > 0 {
+			ht = t.HangTimes
+		}
+		steps, hang, wall, err := sc.measureUpTo(n, prevSteps[t.Family], ht, call)
 		res.Steps, res.Hang, res.WallMS = steps, hang, float64(wall)/1e6
 		if t.Family != "" && !hang {
 			prevSteps[t.Family] = steps
